@@ -22,11 +22,13 @@ RULE = ("Signals: (a) 1..60 (thorough ..200) samples from the seven shared value
         "Noise request = scalar or per-sample snr (list / ndarray; float / int; long signals: alternating blocks) in "
         "dB [-10, 60] or linear [0.1, 1e6] with snr_in_db True / False / omitted (documented default dB), or no snr "
         "and an explicit std (also snr together with an ignored std); a drawn 32-bit seed for NumPy's global RNG. "
-        "spy: numpy.random.normal replaced by a forwarding recorder. repro: the call repeated under the same seed and "
-        "compared with a draw made by the harness under that seed with the oracle's scale. weaver: a Weaver that has "
+        "spy: while the code runs, numpy.random.normal / standard_normal / randn hand out known non-zero deviates G "
+        "(loc + scale*G semantics) and the effective per-sample deviation (out_i - y_i)/G_i is compared with the SNR "
+        "definition - wherever the implementation applies the scaling. repro: the call repeated under the same "
+        "seed (bitwise equal), then once more with known deviates. weaver: a Weaver that has "
         "already seen 0..3 operations (scale_y with |k| > 1, < 1, negative; shift_y; scale_x; shift_x; trend; "
-        "restore_original; normalize_y; an earlier noise), then noise(...) judged by spy + additivity + harness draw "
-        "against copies of the CURRENT ordinates, and a twin Weaver with the same history and seed. sequence: "
+        "restore_original; normalize_y; an earlier noise), then noise(...) judged with known deviates against copies "
+        "of the CURRENT ordinates, and two twin Weavers with the same history and seed (bitwise equal). sequence: "
         "2..5 calls on look-alike signals (same length, first and last sample, one caller array edited in place). "
         "empirical (enumerated): 3 (quick) / 24 (thorough) series of 2*10^5 samples whose seed, signal and snr "
         "derive by SHA-256 from VERIF_SEED and the index; statistics, plus the same seeded-replay checks. "
@@ -34,11 +36,18 @@ RULE = ("Signals: (a) 1..60 (thorough ..200) samples from the seven shared value
         "constant 1); distinct = distinct full input.")
 ASSUMPTIONS = [
     "snr in [-10, 60] dB resp. [0.1, 1e6] linear, std in [1e-3, 1e3]; signal magnitudes <= ~1e10 (after scale_y)",
-    "scale reaching numpy.random.normal compared with sqrt(fsum(y^2)/n / SNR) to 1e-12 relative (observed <= 1e-14)",
-    "additivity: result_i compared with y_i + draw_i to 1e-12 * (|y_i| + |draw_i| + scale_i)",
-    "noise is expected to come from exactly one call of numpy.random.normal on NumPy's global RNG (the documented "
-    "mechanism, DESIGN C15 O(i)), for every signal length (lengths up to 2^20 + 1 are exercised); an implementation "
-    "drawing differently would be reported by the spy / repro sub-checks",
+    "added term compared with sigma_i*G_i, sigma_i = sqrt(fsum(y^2)/n / SNR_i) or std: 1e-9 relative for the deviation "
+    "plus 1e-12*(|y_i| + |term_i|) for the rounding of the sum (observed <= 1e-15 relative on the current tree)",
+    "HOW the noise is drawn is not asserted: scale passed to the sampler or multiplied afterwards, normal / "
+    "standard_normal / randn, one call or one call per sample, container and dtype of the result. If none of the three "
+    "global samplers is used (e.g. a Generator) or the number of deviates is not one per sample, the per-sample "
+    "comparison is skipped (counters draw-not-observable / draw-not-interpretable) and the verdict rests on the "
+    "seeded and statistical clauses; agreement with y + normal(0, sigma) drawn by the harness under the same seed is "
+    "only counted (equals-harness-draw), not demanded",
+    "whatever the sampler, for sigma_i > 1e-6*|y_i| the result must differ from the signal and the samples must not "
+    "all carry the same deviate (probability-one consequences of a per-sample Gaussian term)",
+    "the caller's signal array must be left as it was (otherwise the clean signal is gone and the noise of later "
+    "calls piles up on earlier ones)",
     "snr_in_db omitted is treated as decibel input (documented default of the signature)",
     "Weaver histories use only operations that are valid in the state they meet (normalize_y only on non-constant "
     "ordinates; trend only on series up to 20000 samples for cost); the signal is whatever get() shows before noise",
@@ -49,13 +58,14 @@ ASSUMPTIONS = [
     "earlier calls yields a violation rather than a 'flaky' harness error",
 ]
 TECHNIQUE = ("Hypothesis-generated signals (short explicit ones and long ones described as data, lengths around round "
-             "thresholds), noise requests and Weaver histories with a forwarding spy on numpy.random.normal "
-             "(loc/scale/size vs closed form), seeded replay against an independent draw, and a seeded statistical "
+             "thresholds), noise requests and Weaver histories; NumPy's global normal samplers replaced by known "
+             "deviates so that the effective per-sample deviation can be read off the result and compared with the "
+             "closed form, seeded re-runs compared bitwise, and a seeded statistical "
              "check of the empirical SNR on 2*10^5-sample series")
-LEVEL_TEXT = ("Randomized exploration: the stochastic part is made decidable by (i) observing the exact scale that "
-              "reaches the generator, (ii) fixing NumPy's global seed and comparing with an independent draw, so "
-              "every sample is checked exactly - for short and for long signals and for Weaver objects with a "
-              "history -, and (iii) a fixed-seed statistical test with a 7-sigma band for the end-to-end SNR. The "
+LEVEL_TEXT = ("Randomized exploration: the stochastic part is made decidable by (i) feeding known deviates to the "
+              "code, so the size of the added term is checked exactly for every sample independently of where the "
+              "implementation scales it, (ii) fixing NumPy's global seed and comparing two runs bitwise - for short "
+              "and for long signals and for Weaver objects with a history -, and (iii) a fixed-seed statistical test with a 7-sigma band for the end-to-end SNR. The "
               "fixture's degenerate signal (constant 1) is a rare class here, not the only one.")
 LEVEL_NOTE = ("trusts numpy.random.normal itself, the 25-line scale oracle in this module and the stated tolerances; "
               "the statistical clause is a fixed-seed test (deterministic per VERIF_SEED), not a proof about the "
@@ -297,88 +307,120 @@ def classes(case, yin, yf):
 
 
 def result_array(r, n, what):
-    if not isinstance(r, np.ndarray):
-        raise Violation(f"{what} is {type(r).__name__}, not ndarray")
-    if r.shape != (n,):
-        raise Violation(f"{what} has shape {r.shape}, expected ({n},): length changed")
-    if not np.issubdtype(r.dtype, np.floating):
-        raise Violation(f"{what} has dtype {r.dtype}")
-    if not np.all(np.isfinite(r)):
+    """The noised signal as float64 values.  Only what the statement fixes is demanded: one finite number per
+    sample (container type and dtype of the result are the implementation's business)."""
+    try:
+        arr = np.asarray(r)
+    except Exception:       # noqa: B902
+        raise Violation(f"{what} is a {type(r).__name__} that cannot be read as an array") from None
+    if arr.shape != (n,):
+        raise Violation(f"{what} has shape {arr.shape}, expected ({n},): length changed")
+    if not (np.issubdtype(arr.dtype, np.number) and not np.issubdtype(arr.dtype, np.complexfloating)):
+        raise Violation(f"{what} has dtype {arr.dtype}")
+    arr = arr.astype(float)
+    if not np.all(np.isfinite(arr)):
         raise Violation(f"{what} contains non-finite values")
-    return r
+    return arr
 
 
-# ---- spy on numpy.random.normal -----------------------------------------------------------------------------------
+# ---- the draw made observable: known deviates instead of random ones --------------------------------------------------
+# The statement fixes WHAT is added (sigma_i times a standard normal deviate, per sample), not HOW it is drawn
+# (normal(0, sigma), sigma * normal(0, 1), sigma * standard_normal(), randn ...).  While the code under test runs,
+# numpy.random.normal / standard_normal / randn hand out known, non-zero deviates G (|G| in [0.5, 1.5), alternating
+# sign) with the usual loc + scale * G semantics; the effective per-sample deviation is then read off the result:
+# sigma_eff[i] = (out[i] - y[i]) / G[i].
 
-def with_spy(fn):
-    """Run fn() while numpy.random.normal is replaced by a recorder that forwards to the real function.
-    Returns (result of fn, list of (loc, scale, size, returned array))."""
-    real = np.random.normal
-    calls = []
+def known_deviates(start, count):
+    idx = np.arange(start, start + count, dtype=float)
+    return (0.5 + (idx * 0.6180339887498949) % 1.0) * np.where(idx % 2 == 0, 1.0, -1.0)
 
-    def recorder(*args, **kwargs):
-        out = real(*args, **kwargs)
-        bound = dict(loc=0.0, scale=1.0, size=None)
-        bound.update(zip(("loc", "scale", "size"), args))
-        bound.update(kwargs)
-        calls.append((bound["loc"], bound["scale"], bound["size"], out))
-        return out
 
-    np.random.normal = recorder
+def with_known_deviates(fn):
+    """Run fn() with the three global normal samplers replaced.  Returns (fn's result, list of the deviate arrays
+    handed out, in call order)."""
+    real = (np.random.normal, np.random.standard_normal, np.random.randn)
+    handed = []
+
+    def take(shape):
+        shape = tuple(int(v) for v in np.atleast_1d(shape)) if shape is not None else ()
+        count = int(np.prod(shape)) if shape else 1
+        g = known_deviates(sum(len(h) for h in handed), count)
+        handed.append(g)
+        return g.reshape(shape) if shape else float(g[0])
+
+    def normal(loc=0.0, scale=1.0, size=None):
+        shape = size if size is not None else np.broadcast(np.asarray(loc), np.asarray(scale)).shape
+        return loc + scale * take(shape)
+
+    def standard_normal(size=None, *args, **kwargs):
+        return take(size)
+
+    def randn(*dims):
+        return take(dims)
+
+    np.random.normal, np.random.standard_normal, np.random.randn = normal, standard_normal, randn
     try:
         res = fn()
     finally:
-        np.random.normal = real
-    return res, calls
+        np.random.normal, np.random.standard_normal, np.random.randn = real
+    return res, handed
 
 
 def first_bad(ok):
     return int(np.nonzero(~ok)[0][0])
 
 
-def check_spy(calls, yf, req, what):
-    """loc == 0, drawn shape == signal shape, scale == oracle (elementwise, broadcast).
-    Returns (the draw, the oracle's scale, worst relative deviation of the scale)."""
+def check_effective_std(ctx, handed, out, yf, sigma, what):
+    """out - y must be sigma_i * G_i with sigma from the SNR definition (relative 1e-9 for the deviation, 1e-12 of
+    |y_i| + |noise_i| for the rounding of the sum).  Not decidable here - and left to the seeded / statistical
+    sub-checks - when no patched sampler was used or when the number of deviates is not one per sample."""
     n = len(yf)
-    if len(calls) != 1:
-        raise Violation(f"{what}: numpy.random.normal called {len(calls)} times for a signal of {n} samples, expected "
-                        f"exactly once")
-    loc, scale, size, out = calls[0]
-    if not np.all(np.asarray(loc) == 0):
-        raise Violation(f"{what}: noise drawn with loc={np.asarray(loc).ravel()[:3].tolist()!r}, not 0")
-    if size is not None and tuple(np.atleast_1d(size).tolist()) != (n,):
-        raise Violation(f"{what}: noise drawn with size={size!r}, signal shape is ({n},)")
-    if np.shape(out) != (n,):
-        raise Violation(f"{what}: drawn noise has shape {np.shape(out)}, signal shape is ({n},)")
-    sc = np.asarray(scale, dtype=float)
-    if sc.shape not in ((), (n,)):
-        raise Violation(f"{what}: scale has shape {sc.shape}")
-    sc = np.broadcast_to(sc, (n,))
-    want = scale_oracle(yf, req)
-    dev = np.abs(sc - want)
-    ok = dev <= RTOL * want
+    total = sum(len(h) for h in handed)
+    if total == 0:
+        ctx.count("draw-not-observable")
+        return "draw-not-observable"
+    if total != n:
+        ctx.count("draw-not-interpretable")
+        return "draw-not-interpretable"
+    g = np.concatenate(handed)
+    noise = out - yf
+    want = sigma * g
+    dev = np.abs(noise - want)
+    tol = 1e-9 * np.abs(want) + RTOL * (np.abs(yf) + np.abs(want))
+    ok = dev <= tol
     if not np.all(ok):
         i = first_bad(ok)
-        raise Violation(f"{what}: scale for sample {i} is {float(sc[i])!r}, expected {float(want[i])!r}",
+        raise Violation(f"{what}: sample {i} of {n}: y = {float(yf[i])!r} became {float(out[i])!r} for the standard "
+                        f"deviate {float(g[i])!r}, i.e. an effective noise deviation of {float(noise[i] / g[i])!r}; "
+                        f"the SNR definition gives {float(sigma[i])!r}",
                         detail=dict(mean_y2=mean_square(yf), n=n))
-    pos = want > 0
-    worst = float(np.max(dev[pos] / want[pos])) if np.any(pos) else 0.0
-    return np.asarray(out, dtype=float), want, worst
+    if np.any(dev > 0.01 * tol):
+        ctx.count("within-2-decades-of-tolerance")
+    return "checked"
 
 
-def check_additive(r, yf, draw, scale, what):
-    want = yf + draw
-    ok = np.abs(r - want) <= RTOL * (np.abs(yf) + np.abs(draw) + scale)
-    if not np.all(ok):
-        i = first_bad(ok)
-        raise Violation(f"{what}: sample {i} of {len(yf)} is {float(r[i])!r}, expected y + noise = {float(yf[i])!r} + "
-                        f"{float(draw[i])!r} = {float(want[i])!r}")
+def check_some_noise(out, yf, sigma, what):
+    """Consequences of 'a Gaussian term of deviation sigma_i per sample' that hold with probability 1 whatever the
+    sampler: the term is not identically zero and not one value shared by all samples."""
+    vis = sigma > 1e-6 * np.abs(yf)             # elsewhere the term may vanish in the rounding of y + noise
+    if not np.any(vis):
+        return
+    z = (out[vis] - yf[vis]) / sigma[vis]
+    if np.all(z == 0):
+        raise Violation(f"{what}: result equals the signal although the requested noise deviation is "
+                        f"{float(sigma[vis][0])!r}: no noise was added")
+    if len(z) >= 4 and float(np.max(z) - np.min(z)) <= 1e-9 * float(np.max(np.abs(z))):
+        raise Violation(f"{what}: all {len(z)} samples received the same noise deviate {float(z[0])!r}")
 
 
-def harness_draw(seed, scale, n):
-    """The Gaussian term the statement prescribes, drawn by the harness itself under the same global seed."""
+def harness_draw_matches(ctx, out, yf, sigma, seed):
+    """Informative only: does the result equal y + normal(0, sigma) drawn by the harness under the same seed?
+    (True for the current implementation; the statement does not prescribe the order of the draws.)"""
     np.random.seed(seed)
-    return np.random.normal(0.0, np.asarray(scale, dtype=float), n)
+    d = np.random.normal(0.0, 1.0, len(yf)) * sigma
+    same = bool(np.all(np.abs(out - (yf + d)) <= 1e-9 * np.abs(d) + RTOL * (np.abs(yf) + np.abs(d))))
+    ctx.count("equals-harness-draw" if same else "differs-from-harness-draw")
+    return same
 
 
 def check_same_bits(r1, r2, seed, what):
@@ -388,7 +430,7 @@ def check_same_bits(r1, r2, seed, what):
                         f"{float(r1[bad])!r} vs {float(r2[bad])!r}")
 
 
-# ---- 1. spy: the scale reaching the generator, additivity ---------------------------------------------------------------
+# ---- 1. spy: the effective deviation of the added term, additivity --------------------------------------------------------
 
 def spy_body(ctx, case):
     req = case["req"]
@@ -400,24 +442,23 @@ def spy_body(ctx, case):
     np.random.seed(case["seed"])
     if req["snr"] is None and case["seed"] % 2:
         how = "snr-omitted"
-        r, calls = with_spy(lambda: process.noise_gauss(yin, **kw))
+        r, handed = with_known_deviates(lambda: process.noise_gauss(yin, **kw))
     elif case["seed"] % 3:
         how = "snr-positional"
-        r, calls = with_spy(lambda: process.noise_gauss(yin, snr, **kw))
+        r, handed = with_known_deviates(lambda: process.noise_gauss(yin, snr, **kw))
     else:
         how = "snr-keyword"
-        r, calls = with_spy(lambda: process.noise_gauss(yin, snr=snr, **kw))
+        r, handed = with_known_deviates(lambda: process.noise_gauss(yin, snr=snr, **kw))
     r = result_array(r, n, "noise_gauss result")
-    draw, scale, worst = check_spy(calls, yf, req, "noise_gauss")
-    check_additive(r, yf, draw, scale, "noise_gauss")
+    sigma = scale_oracle(yf, req)
+    status = check_effective_std(ctx, handed, r, yf, sigma, "noise_gauss")
+    check_some_noise(r, yf, sigma, "noise_gauss")
     if not same_input(yin, yk):
-        raise Violation("noise_gauss modified its input")
-    if worst > 1e-14:
-        ctx.count("scale-dev>1e-14")
-    ctx.record(case, classes(case, yin, yf) | {how}, nontrivial=is_nontrivial(yf))
+        raise Violation("noise_gauss modified its input (the clean signal is lost)")
+    ctx.record(case, classes(case, yin, yf) | {how, status}, nontrivial=is_nontrivial(yf))
 
 
-# ---- 2. reproducibility and the Gaussian term under a fixed seed (process level) -----------------------------------------
+# ---- 2. reproducibility under a fixed seed (process level) -------------------------------------------------------------------
 
 def repro_body(ctx, case):
     req, seed = case["req"], case["seed"]
@@ -427,17 +468,21 @@ def repro_body(ctx, case):
     n = len(yf)
     snr, kw = call_args(req, n)
     np.random.seed(seed)
-    r1 = result_array(process.noise_gauss(yin, snr, **kw), n, "noise_gauss result")
+    r1 = process.noise_gauss(yin, snr, **kw)
+    if not same_input(yin, yk):
+        raise Violation("noise_gauss modified its input (the clean signal is lost)")
+    r1 = result_array(r1, n, "noise_gauss result")
     np.random.seed(seed)
     r2 = result_array(process.noise_gauss(signal_input(case), call_args(req, n)[0], **kw), n,
                       "noise_gauss result (2nd run)")
     check_same_bits(r1, r2, seed, "noise_gauss")
-    scale = scale_oracle(yf, req)
-    draw = harness_draw(seed, scale, n)
-    check_additive(r1, yf, draw, scale, f"noise_gauss under seed {seed} vs normal(0, scale_oracle)")
-    if not same_input(yin, yk):
-        raise Violation("noise_gauss modified its input")
-    ctx.record(case, classes(case, yin, yf), nontrivial=is_nontrivial(yf))
+    sigma = scale_oracle(yf, req)
+    check_some_noise(r1, yf, sigma, f"noise_gauss under seed {seed}")
+    harness_draw_matches(ctx, r1, yf, sigma, seed)
+    # the same call once more with known deviates: the size of the added term, sample by sample
+    r3, handed = with_known_deviates(lambda: process.noise_gauss(signal_input(case), call_args(req, n)[0], **kw))
+    status = check_effective_std(ctx, handed, result_array(r3, n, "noise_gauss result"), yf, sigma, "noise_gauss")
+    ctx.record(case, classes(case, yin, yf) | {status}, nontrivial=is_nontrivial(yf))
 
 
 # ---- 3. Weaver.noise on a Weaver with a history ---------------------------------------------------------------------------
@@ -479,11 +524,13 @@ def weaver_case(draw, ctx):
 def weaver_pair(res, n, what):
     if not (isinstance(res, tuple) and len(res) == 2):
         raise Violation(f"{what} did not return a pair")
+    out = []
     for a in res:
-        if not isinstance(a, np.ndarray) or a.shape != (n,):
-            raise Violation(f"{what}: component is {type(a).__name__} of shape {getattr(a, 'shape', None)}, expected "
-                            f"ndarray ({n},): length changed")
-    return res
+        a = np.asarray(a)
+        if a.shape != (n,):
+            raise Violation(f"{what}: component has shape {a.shape}, expected ({n},): length changed")
+        out.append(a)
+    return tuple(out)
 
 
 def apply_prep(w, steps, seed, n, counter=None):
@@ -527,38 +574,39 @@ def weaver_body(ctx, case):
     w = Weaver(xin, yin)
     done = apply_prep(w, case["prep"], seed, n, ctx.count)
     # the signal is whatever the working series holds now (observed, not modelled: the other properties' business)
-    snap = {g: tuple(a.copy() for a in weaver_pair(getattr(w, g)(), n, f"Weaver.{g}"))
-            for g in ("get", "get_reference", "get_original")}
-    cx, cy = snap["get"]
+    cx, cy = (a.copy() for a in weaver_pair(w.get(), n, "Weaver.get"))
     if not (np.issubdtype(cy.dtype, np.number) and np.all(np.isfinite(cy))):
         raise Violation(f"working ordinates not finite numbers after {done}")
     yf = cy.astype(float)
-    np.random.seed(seed)
-    _, calls = with_spy(lambda: w.noise(snr, **kw))
+    what = f"Weaver.noise after {done}" if done else "Weaver.noise"
+    # (a) known deviates: the size of the added term on the CURRENT ordinates, sample by sample
+    _, handed = with_known_deviates(lambda: w.noise(snr, **kw))
     gx, gy = weaver_pair(w.get(), n, "Weaver.get")
     gy = result_array(gy, n, "y after Weaver.noise")
     if len(w) != n:
         raise Violation(f"len(Weaver) is {len(w)} after noise, was {n}")
     if not np.array_equal(gx, cx):
         raise Violation("Weaver.noise changed x")
-    what = f"Weaver.noise after {done}" if done else "Weaver.noise"
-    draw, scale, _ = check_spy(calls, yf, req, what)
-    check_additive(gy, yf, draw, scale, what)
-    check_additive(gy, yf, harness_draw(seed, scale, n), scale, f"{what} under seed {seed} vs normal(0, scale_oracle)")
-    for getter in ("get_reference", "get_original"):
-        hx, hy = weaver_pair(getattr(w, getter)(), n, f"Weaver.{getter}")
-        if not (np.array_equal(hx, snap[getter][0]) and np.array_equal(hy, snap[getter][1])):
-            raise Violation(f"{what} changed {getter}()")
-    # a twin with the same history and the same seeds
-    w2 = Weaver(x_input(case), signal_input(case))
-    apply_prep(w2, case["prep"], seed, n)
-    np.random.seed(seed)
-    w2.noise(call_args(req, n)[0], **kw)
-    g2 = weaver_pair(w2.get(), n, "Weaver.get (twin)")
-    check_same_bits(gy, result_array(g2[1], n, "twin y"), seed, what)
+    sigma = scale_oracle(yf, req)
+    status = check_effective_std(ctx, handed, gy, yf, sigma, what)
+    check_some_noise(gy, yf, sigma, what)
+    # (b) two twins with the same history under the real generator and the same seeds
+    twins = []
+    for _ in range(2):
+        t = Weaver(x_input(case), signal_input(case))
+        apply_prep(t, case["prep"], seed, n)
+        np.random.seed(seed)
+        t.noise(call_args(req, n)[0], **kw)
+        tx, ty = weaver_pair(t.get(), n, "Weaver.get (twin)")
+        if not np.array_equal(tx, cx):
+            raise Violation("Weaver.noise changed x")
+        twins.append(result_array(ty, n, "twin y after Weaver.noise"))
+    check_same_bits(twins[0], twins[1], seed, what)
+    check_some_noise(twins[0], yf, sigma, f"{what} under seed {seed}")
+    harness_draw_matches(ctx, twins[0], yf, sigma, seed)
     if not (same_input(xin, xk) and same_input(yin, yk)):
-        raise Violation(f"{what} modified the caller's arrays")
-    cls = classes(case, yin, yf) | {"x:" + case["xkind"], f"history={len(done)}"} | {"prep:" + d for d in done}
+        raise Violation(f"{what} modified the caller's arrays (the clean signal is lost)")
+    cls = classes(case, yin, yf) | {"x:" + case["xkind"], f"history={len(done)}", status} | {"prep:" + d for d in done}
     for s in case["prep"]:
         if s["op"] == "scale_y" and s["op"] in done:
             a = abs(s["v"])
@@ -600,15 +648,17 @@ def sequence_body(ctx, case):
             yin = np.array(vals, dtype=float)
         yf = np.array(vals, dtype=float)
         snr, kw = call_args(s["req"], n)
+        what = f"call {k} (signal {s['s']}, {s['via']})"
         np.random.seed(s["seed"])
-        r, calls = with_spy(lambda: process.noise_gauss(yin, snr, **kw))
-        r = result_array(r, n, f"call {k}: result")
-        draw, scale, _ = check_spy(calls, yf, s["req"], f"call {k} (signal {s['s']}, {s['via']})")
-        check_additive(r, yf, draw, scale, f"call {k}")
-        check_additive(r, yf, harness_draw(s["seed"], scale, n), scale, f"call {k} under seed {s['seed']}")
+        raw, handed = with_known_deviates(lambda: process.noise_gauss(yin, snr, **kw))
+        r = result_array(raw, n, what + ": result")
+        sigma = scale_oracle(yf, s["req"])
+        cls.add(check_effective_std(ctx, handed, r, yf, sigma, what))
+        check_some_noise(r, yf, sigma, what)
         if yin.tolist() != vals:
-            raise Violation(f"call {k}: noise_gauss modified its input")
-        r.fill(1e300)                                         # nothing handed out may be reused
+            raise Violation(f"{what}: noise_gauss modified its input (the clean signal is lost)")
+        if isinstance(raw, np.ndarray) and np.issubdtype(raw.dtype, np.floating) and not np.shares_memory(raw, yin):
+            raw.fill(1e300)                                   # nothing handed out may be reused
         cls.update({"via:" + s["via"], "mode:" + s["req"]["mode"]})
     ctx.record(case, cls, nontrivial=len({s["s"] for s in case["steps"]}) >= 2)
 
@@ -702,11 +752,16 @@ def empirical_body(ctx, case):
     else:
         sigma = np.sqrt(power / snr_lin)
         requested = 10.0 * np.log10(snr_lin)
-    # (a) the series is long, not different: same seed -> same bits, and == y + normal(0, sigma) drawn by the harness
+    # (a) the series is long, not different: same seed -> same bits; with known deviates the added term has the
+    #     requested size sample by sample
+    label = f"{case['level']}-level noise on {n} samples"
     r2 = empirical_run(case, build_signal(case["signal"], n), build_snr(req, n)[0], kw)
-    check_same_bits(r, r2, case["seed"], f"{case['level']}-level noise on {n} samples")
-    check_additive(r, yf, harness_draw(case["seed"], sigma, n), sigma,
-                   f"{case['level']}-level noise on {n} samples under seed {case['seed']} vs normal(0, scale_oracle)")
+    check_same_bits(r, r2, case["seed"], label)
+    check_some_noise(r, yf, sigma, label)
+    harness_draw_matches(ctx, r, yf, sigma, case["seed"])
+    r3, handed = with_known_deviates(
+        lambda: empirical_run(case, build_signal(case["signal"], n), build_snr(req, n)[0], kw))
+    status = check_effective_std(ctx, handed, r3, yf, sigma, label)
     # (b) statistics
     if req["kind"] in ("dB", "linear"):
         # literally the statement: empirical 10*log10(mean(y^2)/var(noise)) against the requested value
@@ -734,7 +789,7 @@ def empirical_body(ctx, case):
         ctx.count("dev>0.05dB")
     if abs(zmean) > 3.0 / math.sqrt(n):
         ctx.count("mean>3se")
-    cls = {"signal:" + case["signal"]["kind"], "request:" + req["kind"], "level:" + case["level"]}
+    cls = {"signal:" + case["signal"]["kind"], "request:" + req["kind"], "level:" + case["level"], status}
     if req.get("db", 0) is None:
         cls.add("dB-default")
     if float(np.min(yf)) < 0 < float(np.max(yf)):
@@ -745,15 +800,15 @@ def empirical_body(ctx, case):
 
 SUBCHECKS = [
     Sub("spy", "hyp", sticky(spy_body), strategy=lambda ctx: signal_case(ctx, long_in=10), quick=400, thorough=8000,
-        clause="the Gaussian term: loc 0, one value per sample, standard deviation sqrt(mean(y^2)/SNR) (dB / linear / "
-               "per sample) or std; result = y + that term; input untouched; short and long signals"),
+        clause="result - y = sigma_i * (standard deviate), sigma_i = sqrt(mean(y^2)/SNR) (dB / linear / per sample) or "
+               "std, read off with known deviates; nothing else is added; input untouched; short and long signals"),
     Sub("repro", "hyp", sticky(repro_body), strategy=lambda ctx: signal_case(ctx, long_in=4), quick=500,
         thorough=10000,
-        clause="fixed NumPy seed: two runs bitwise equal, and equal to y + normal(0, scale_oracle) drawn by the harness; "
-               "one case in four has a length at / next to a round threshold up to 2^20"),
+        clause="fixed NumPy seed: two runs bitwise equal (noise present, not one value for all samples); the same call "
+               "with known deviates; one case in five has a length at / next to a round threshold up to 2^20"),
     Sub("weaver", "hyp", sticky(weaver_body), strategy=weaver_case, quick=400, thorough=8000,
-        clause="Weaver.noise on an object with 0..3 earlier operations: x and length unchanged, scale / additivity / "
-               "reproducibility judged on the current ordinates, reference and original untouched"),
+        clause="Weaver.noise on an object with 0..3 earlier operations: x and length unchanged, size of the added term "
+               "and reproducibility judged on the current ordinates"),
     Sub("sequence", "hyp", sticky(sequence_body), strategy=sequence_case, quick=100, thorough=2000,
         clause="every call is judged on its own arguments: 2..5 calls in a row on look-alike signals, caller array "
                "edited in place"),
